@@ -51,11 +51,18 @@ Theorem C20_known_panics_are_real :
   validate (I_MsgUpdateParams {| up_authority := BGood 1; up_chain := ChTron; up_params := params_absent_power_change |}) = VPanic /\
   validate (I_MsgBridgeCall bridge_call_absent_value) = VPanic /\
   validate (I_MsgBridgeCall bridge_call_absent_coin_amount) = VPanic /\
-  validate (I_MsgConfirm {| mw_confirm := AnyNil |}) = VPanic /\
-  validate (I_CrosschainArgs (CA_BridgeCall true BgNil 0 0 false)) = VPanic /\
-  validate (I_IbcCallEvmPacket {| ic_to := XEth; ic_value := INil; ic_data := HGood |}) = VPanic.
+  validate (I_MsgConfirm {| mw_confirm := AnyNil |}) = VPanic.
 Proof. exact known_panics_are_panics. Qed.
 Print Assumptions C20_known_panics_are_real.
+
+(* the two remaining classes excluded by known_panic_input panic in the transcribed Go functions but cannot be produced by
+   the decoders in front of them (abi.Unpack always allocates a uint256; the IBC memo is JSON and an absent "value"
+   becomes a fresh zero Int): the harness checks both facts on the real decoders *)
+Theorem C20_decoder_excluded_classes :
+  validate (I_CrosschainArgs (CA_BridgeCall true BgNil 0 0 false)) = VPanic /\
+  validate (I_IbcCallEvmPacket {| ic_to := XEth; ic_value := INil; ic_data := HGood |}) = VPanic.
+Proof. exact decoder_excluded_classes. Qed.
+Print Assumptions C20_decoder_excluded_classes.
 
 (* precompile argument validation never panics on anything go-ethereum's abi decoder can produce *)
 Theorem C20_precompile_args_total :
